@@ -59,6 +59,9 @@ def main(argv):
     h = base.load_harness(prop)
     budget = h.budget(tier) if hasattr(h, 'budget') else (150 if tier == 'quick' else 1200)
     units = h.units(tier)
+    only = os.environ.get('VERIF_UNITS')      # debugging aid: substring filter on the unit JSON
+    if only:
+        units = [u for u in units if only in json.dumps(u)]
     rnd = random.Random(seed)
     order = list(range(len(units)))
     rnd.shuffle(order)
